@@ -662,6 +662,9 @@ class RZILTransformer(Transformer):
         else:
             raise NotImplementedError(f"Assign type {assign.assign_type} not handled.")
         self.add_op(assign.src)
+        if assign.src.value_type != assign.dest.value_type:
+            # C11 6.5.16.2: E1 op= E2 is E1 = E1 op (E2). The result is converted to the type of E1.
+            assign.set_src(self.init_a_cast(assign.dest.value_type, assign.src))
 
     def assignment_expr(self, items):
         self.ext.set_token_meta_data("assignment_expr")
